@@ -6,7 +6,6 @@ Gen_C20D (pools of Gaussians: marginalize / reduce / canonical form / product, c
 Trace_C20 (recorded to_joint_gaussian / predict of random 5-6 node networks)                -> validated by TLC
 All expected numbers are exact rationals computed by TLC from spec/GaussLib.tla; the constant g of canonical forms is the
 symbolic normal form q + c*log(2 pi) - log(X)/2 which this module only evaluates."""
-import itertools
 import json
 import math
 import os
